@@ -423,10 +423,14 @@ impl Searcher {
         Some(MVV_LVA_SCORES[victim.index()][attacker.index()])
     }
 
-    /// Updates position repetition (for repetition detection)
-    #[allow(dead_code)]
-    fn push_position(&mut self, board: &Board) {
+    /// Records a position that occurred in the game (for repetition detection)
+    pub fn push_position(&mut self, board: &Board) {
         self.repetition.push(self.zobrist.hash(board));
+    }
+
+    /// Forgets the recorded game positions
+    pub fn clear_positions(&mut self) {
+        self.repetition.clear();
     }
 }
 
